@@ -246,6 +246,10 @@ class Renderer:
         n = self.p.d['names'][k]
         if self.style and self.style.random() < .2:
             n = n.lower()
+        if nm['b'] != host[0]:      # a name defined in another workbook
+            if self.extlinks and nm['b'] in self.extlinks:
+                return '[%d]!%s' % (self.extlinks[nm['b']], n)
+            return "'[%s]'!%s" % (self.p.file(nm['b']), n)
         return n
 
     def render(self, e, host):
